@@ -261,7 +261,12 @@ def known_match(property_id, ob: Ob, known):
 
 def write_evidence(rep: Report, wall_s, violations, known_lines, checker_cmd, samples=None):
     os.makedirs(EVID, exist_ok=True)
-    obs = [o for o in rep.obligations if o.kind in ("vc", "exact")]
+    # obligations that are refuted on the unchanged tree and listed as known findings are reported separately: they are not part of what
+    # this run claims to have discharged (coverage.obligations == coverage.discharged is the proof-level claim for everything else)
+    known = load_known()
+    kf_obs = [o for o in rep.obligations if o.kind in ("vc", "exact") and o.status == "refuted" and known_match(rep.property_id, o, known) is not None]
+    kf_ids = {id(o) for o in kf_obs}
+    obs = [o for o in rep.obligations if o.kind in ("vc", "exact") and id(o) not in kf_ids]
     covers = [o for o in rep.obligations if o.kind in ("cover", "canary")]
     bounded = [o for o in rep.obligations if o.kind == "bounded"]
     n = len(obs)
@@ -315,6 +320,9 @@ def write_evidence(rep: Report, wall_s, violations, known_lines, checker_cmd, sa
     }
     if known_lines:
         ev["coverage"]["known_finding_lines"] = known_lines[:200]
+    if kf_obs:
+        ev["coverage"]["known_finding_obligations"] = [{"obligation": o.id, "function": o.func, "status": o.status, "backend": o.backend, "counter_model": o.detail[:300]} for o in kf_obs]
+        ev["coverage"]["explanation"] = (ev["coverage"].get("explanation") or "") + " %d further obligation(s) are refuted on the unchanged tree and listed in known_findings.json (reported as KNOWN-FINDING, not counted in obligations/discharged)." % len(kf_obs)
     path = os.path.join(EVID, "%s.json" % rep.property_id)
     with open(path, "w") as f:
         json.dump(ev, f, indent=1, default=str)
